@@ -361,6 +361,8 @@ T_LEAF = T_LEAF + T("Leaf", "idx_arith", "get_set_idx", "get_set_idx_small",
            kind="law of the regenerated Go accessors themselves: BlockSizeIndex() reads back what BlockSizeIndexSet stored (every previous word)")
 T_LEAF = T_LEAF + T("Leaf", "idx_set_cc", "idx_set_size", "idx_set_bc", "idx_set_bi",
            kind="law of the regenerated Go accessors themselves: the one-bit setters leave the block-size index unchanged (every word)")
+T_LEAF = T_LEAF + T("Leaf", "version_arith", "get_set_version",
+           kind="law of the regenerated Go accessors themselves: Version() reads back what VersionSet stored (every previous word)")
 T_POOL = T("Pool", "reach_inv", "get_size", "inv_put", "inv_get", "inv_drop", "put_foreign", "put_slice",
            kind="the shared block-buffer pools keep their size classes after every Get/Put/drop history (what the Reader's cap(b.data) bound rests on)")
 CR_FAM = dict(family="cr", variant="asm", kview=kview_w, nontrivial=nontrivial_sess,
